@@ -72,6 +72,12 @@ func (c *Ctx) Eval(key any, nontrivial bool) {
 	}
 }
 
+// EvalBulk counts n evaluated, pairwise distinct, non-trivial cases of a sweep without hashing each.
+func (c *Ctx) EvalBulk(n int64) {
+	c.Evals += n
+	c.Counters["bulk_distinct"] += n
+}
+
 // Outcome records an observed outcome class (vacuity guard: >= 2 classes expected).
 func (c *Ctx) Outcome(class string) { c.Outcomes[class]++ }
 
@@ -529,9 +535,11 @@ func drive(ck *Check, tier string, seed int64) int {
 		return 2
 	}
 	// evidence
+	ndist := int64(len(distinct)) + tot.Counters["bulk_distinct"]
+	delete(tot.Counters, "bulk_distinct")
 	cov := map[string]any{
 		"evaluations":         tot.Evals,
-		"distinct_nontrivial": len(distinct),
+		"distinct_nontrivial": ndist,
 		"rule":                ck.Rule,
 		"samples":             tot.Samples,
 		"exhaustive":          tot.Capped == "",
@@ -572,7 +580,7 @@ func drive(ck *Check, tier string, seed int64) int {
 		return 2
 	}
 	fmt.Printf("%s %s: evaluations=%d distinct_nontrivial=%d outcomes=%d violations=%d known=%d exhaustive=%v wall=%.1fs\n",
-		ck.ID, tier, tot.Evals, len(distinct), len(tot.Outcomes), nviol, len(knownLines), tot.Capped == "", time.Since(start).Seconds())
+		ck.ID, tier, tot.Evals, ndist, len(tot.Outcomes), nviol, len(knownLines), tot.Capped == "", time.Since(start).Seconds())
 	return exit
 }
 
